@@ -725,7 +725,7 @@ def run(chk):
     return chk.finish(level="proof",
                       rule="core: every effect position of add and commit x {raise, die} x 5 flush amounts x 4 cleanup "
                            "outcomes for one payload, rejected payloads, duplicate add, commit of a vanished document; "
-                           "then seeded random cases over 8 payload kinds (3 rejected by the serialiser), 8 identifier "
+                           "then seeded random cases over 8 payload kinds (3 rejected by the serialiser), 16 identifier "
                            "shapes, 0-3 neighbours, foreign/stale files; non-trivial = a fault is injected or the "
                            "payload is rejected; distinct by full case description")
 
